@@ -135,13 +135,14 @@ def judge(case, R, tin, tout, f):
     cb, db = directive_lines(b)
     m = judge.model
     ans = m.ask("tokdiff %s %s %s" % (enc(named), enc(ca), enc(cb))).split()
+    ls = "|leading-splice" if re.match(rb"^\s*\\\r?\n\s*#", case.data) else ""     # recorded cause: the file starts with a line splice in front of a directive
     if ans[0] != "1":
         keep = lambda s: [t for t in s if t not in named]
         ka, kb = keep(ca), keep(cb)
         k = lexc.first_diff(ka, kb)
-        f.append(("tokens|%s" % ("defaults" if not named else "unnamed"), "tokens other than %s differ: at %d input %s, output %s" % (named or "none", k, ka[max(0, k - 3):k + 4], kb[max(0, k - 3):k + 4])))
+        f.append(("tokens|%s%s" % ("defaults" if not named else "unnamed", ls), "tokens other than %s differ: at %d input %s, output %s" % (named or "none", k, ka[max(0, k - 3):k + 4], kb[max(0, k - 3):k + 4])))
     elif ans[1] == "1" and ans[2] != "1":
-        f.append(("balance" + ("|leading-splice" if re.match(rb"^\s*\\\r?\n\s*#", case.data) else ""), "the input's brackets are balanced, the output's are not (options name %s)" % named))
+        f.append(("balance" + ls, "the input's brackets are balanced, the output's are not (options name %s)" % named))
     # directive lines: equal, or (sorting) a permutation, or (duplicate removal) a sub-multiset with only #include lines dropped
     strip_named = lambda ds: [tuple(t for t in d if t not in named) for d in ds]
     da, db = strip_named(da), strip_named(db)
@@ -156,7 +157,7 @@ def judge(case, R, tin, tout, f):
             pass
         else:
             k = lexc.first_diff(da, db)
-            f.append(("directives", "directive lines differ: input %s, output %s" % (da[k:k + 2], db[k:k + 2])))
+            f.append(("directives" + ls, "directive lines differ: input %s, output %s" % (da[k:k + 2], db[k:k + 2])))
     # a brace pair may only be removed around a single statement
     if "{" in named and ans[0] == "1" and not sorts:
         for body in removed_brace_pairs(ca, cb):
@@ -173,7 +174,7 @@ SHAPES = ["if (a) b = 1; else c = 2;", "if (a) { b = 1; c = 2; } else d = 3;", "
                                                        "if (a &&\n    b) { while (c) d--; } else { e = 1; }", "if (a) { for (i = 0;\n     i < 3; i++) b++; } else { c = 2; }",
                                                        "if (a ||\n    b) { c = 1; }", "if (a) { if (f(b,\n   c)) d = 1; }", "if (a) { switch (b) { case 1: c = 2; break; } } else { d = 3; }",
                                                        "while (a &&\n       b) { c--; }", "for (a = 0;\n     a < 3;\n     a++) { b++; }", "if (a) { while (f(b,\n    c)) d--; } else if (e) { g(1,\n 2); } else { h = 1; }",
-                                                       "if (a) { int v = 1; }", "if (a) { MACRO(b) }", "#define RET_A return a // result\nif (b) { RET_A; }", "#define BUMP if (a) b++ /* bump */\nBUMP;", "return (a);", "return a + 1;", "return (a) + (b);"]
+                                                       "if (a) {\n/* *INDENT-OFF* */\n  b  =  1;\n/* *INDENT-ON* */\n  c = 2;\n}", "while (a) {\n// *INDENT-OFF*\n  b  =  1; c--;\n// *INDENT-ON*\n}", "if (a) { int v = 1; }", "if (a) { MACRO(b) }", "#define RET_A return a // result\nif (b) { RET_A; }", "#define BUMP if (a) b++ /* bump */\nBUMP;", "return (a);", "return a + 1;", "return (a) + (b);"]
 
 
 # option pairs that only act together
